@@ -188,3 +188,12 @@ From SV Require Import Tree.RenderGroup Tree.LemmaAGroup.
 Theorem c01_join_groups_refuted : ~ lemma_A_group_statement.
 Proof. exact lemma_A_group_statement_refuted. Qed.
 Print Assumptions c01_join_groups_refuted.
+
+(** join groups in the JOIN spelling (group as JOIN operand or first element; Tree/LemmaAGroup3.v): exact *)
+From SV Require Import Tree.LemmaAGroup2 Tree.LemmaAGroup3.
+Theorem c01_exact_on_join_groups_join_spelling : forall noise e s,
+  noise_ok noise = true -> env_ok e = true -> stmt_ok_g_join s = true ->
+  stmt_reads (analyze e false (r_stmt_g noise s)) = sort_strings (spec_reads (e_cfg e) s) /\
+  stmt_writes (analyze e false (r_stmt_g noise s)) = sort_strings (spec_writes (e_cfg e) s).
+Proof. exact lemma_A_group_join. Qed.
+Print Assumptions c01_exact_on_join_groups_join_spelling.
